@@ -106,7 +106,7 @@ def run_cases(mod, ctx, driver_ok):
                     hist.append((c["real"], r, c.get("tag", "")))
                 else:
                     hist[ctx.rng.randrange(len(hist))] = (c["real"], r, c.get("tag", ""))
-            gen.compare(c, r, st)
+            gen.compare(c, r, st, EQ)
             tag = c.get("tag", "")
             st["tags"][tag] = st["tags"].get(tag, 0) + 1
             if not c.get("trivial"):
@@ -343,7 +343,8 @@ def check(prop, tier, seed, t0, no_build=False):
                 tie_modules=ctx.tie.get("modules"), tie_theorems=ctx.tie.get("theorems"),
                 tie_theorems_checked=ctx.tie.get("checked"), tie_open=ctx.tie.get("broken"),
                 functions_compared=st["gen_functions"], lines_compared=st["gen_lines"],
-                disagreements=st.get("gen_mismatch_count", 0), disagreement_samples=st["gen_mismatches"][:5]),
+                disagreements=st.get("gen_mismatch_count", 0), disagreement_samples=st["gen_mismatches"][:5],
+                float_rounding_differences=st.get("gen_float_differences", 0)),
             notes=ctx.notes,
             **({"anchor_code_coverage": code_cov} if code_cov else {}),
         ),
